@@ -707,10 +707,16 @@ func main() {
 	if report.Thorough() {
 		depth = 10
 	}
+	ds := 4
+	if report.Thorough() {
+		ds = 5
+	}
+	exploreEngineThroughStack(ds)
 	for _, p := range allParams() {
 		d := depth
 		exploreBreaker(p, d)
 	}
+
 	vclock.SetFrozen()
 	for _, s := range scenarios() {
 		runScenario(s.sc, s.bound)
